@@ -121,8 +121,14 @@ def query_evaluation_cannot_raise(ctx):
         else:
             yield Ob("C09.R1", ["C09"], key, False, f"unrecognised operator expression `{norm(op) if op is not None else '?'}`",
                      ctx.prog.loc(c))
-    # noop: total callables
+    # noop: total callables, on every path
     noop = ctx.prog.func("BaseQuery.noop", "C09.R1")
+    others = [r for r in walk_local(noop.node) if isinstance(r, ast.Return) and not (
+        isinstance(r.value, ast.Call) and isinstance(r.value.func, ast.Name) and r.value.func.id == "SimpleQuery")]
+    yield Ob("C09.R1", ["C09", "C01"], f"{noop.qual} | every path builds the always-true query", not others,
+             "single SimpleQuery(lambda _: True, identity resolver)" if not others else
+             f"`{norm(others[0], 60)}`: on that path noop() resolves the query's key first, so it is False on points without the "
+             f"key (noop then behaves like exists())", noop.loc())
     for n in walk_local(noop.node):
         if isinstance(n, ast.Call) and isinstance(n.func, ast.Name) and n.func.id == "SimpleQuery":
             bad = []
@@ -714,9 +720,17 @@ def unhashable_never_equal(ctx):
     ok = False
     for n in walk_local(gen.node):
         if isinstance(n, ast.Call) and isinstance(n.func, ast.Name) and n.func.id == "SimpleQuery":
-            v = kw(n, "hashval")
+            init_ = ctx.prog.func("SimpleQuery.__init__", "C17.R3")
+            b_, _ = bind_args(n, init_)
+            v = b_.get("hashval")
+            if isinstance(v, ast.Name):
+                vs_ = assignments_to(gen, v.id)
+                v = vs_[0] if len(vs_) == 1 else v
             if isinstance(v, ast.IfExp) and norm(v.test) == "self.is_hashable()" and norm(v.body) == "hashval" \
                     and const_value(v.orelse) is None:
+                ok = True
+            if isinstance(v, ast.IfExp) and norm(v.test) == "not self.is_hashable()" and norm(v.orelse) == "hashval" \
+                    and const_value(v.body) is None:
                 ok = True
     rebound = [n for n in walk_local(gen.node) if isinstance(n, (ast.Assign, ast.AugAssign, ast.AnnAssign))
                and any(isinstance(x, ast.Name) and isinstance(x.ctx, ast.Store) and x.id in ("hashval", "rhs", "operator", "args")
